@@ -11,7 +11,7 @@ Inductive op :=
 | OSetName (name : bytes)
 | OGetSchedules
 | ODelete (slot : bytes)
-| OCreate (day_base : Z) (start_time end_time : bytes) (days : list day)
+| OCreate (day_base : Z) (start_time end_time : bytes) (days : days_arg)
 | OStop
 | OSetPosition (position : N)
 | OGetShutterState
